@@ -154,11 +154,43 @@ def run(tier: str = "quick", seed: int = 0) -> dict:
                 w2 = [any(n is w for w in reference(sub, parse_steps(text))) for n in M.ref_nodes(sub)]
                 if r2 != w2:
                     fail(f"match({text!r}) on a sub-tree used as root after matching in the enclosing tree: {r2}, expected {w2}", text, desc)
+    # tree_consistent, the hypothesis of the agreement lemmas (contracts.xpath_agree), checked natively on every tree: the downward enumerations list
+    # exactly the recorded positions whose parent / some ancestor is the node; root unique; chains empty exactly for the root
+    for desc, root in built:
+        evals += 1
+        problems = tree_consistent_problems(root)
+        if problems:
+            fail(f"tree_consistent does not hold on {desc}: {problems[:3]}", "/RtLeaf", desc)
     for _, root in built:
         M.detach_all(root)
     return {"evaluations": evals, "distinct_nontrivial": len(distinct),
-            "rule": f"{len(paths)} xpaths from the grammar (all single steps over anywhere x field x index x class incl. indices 11/12 and the field name 'child'; seeded 2-4 step paths) x 5 trees (13-tuple, subclass hierarchy, content-identical twins under equal parents); every node as match() argument; oracle = top-down evaluation of the documented semantics; distinct = (xpath, tree)",
+            "rule": f"{len(paths)} xpaths from the grammar (all single steps over anywhere x field x index x class incl. indices 11/12 and the field name 'child'; seeded 2-4 step paths) x 5 trees (13-tuple, subclass hierarchy, content-identical twins under equal parents); every node as match() argument; oracle = top-down evaluation of the documented semantics; the hypothesis tree_consistent of the agreement lemmas checked clause by clause on every tree; distinct = (xpath, tree)",
             "samples": samples, "failures": failures, "bound": "1-4 steps, 5 trees"}
+
+
+def tree_consistent_problems(root) -> list[str]:
+    """The clauses of tree_consistent (hypothesis of contracts.xpath_agree) on one built tree; [] when they hold or the tree is outside the hypothesis."""
+    t = Tree(root)
+    nodes = M.ref_nodes(root)
+    if len({id(n) for n in nodes}) != len(nodes):
+        return []                    # a node at two positions: outside the hypothesis (and outside C07's trees)
+    rec = {id(n): t.get_parent_info(n) for n in nodes}
+    key = lambda n: (id(n), id(rec[id(n)][0]), rec[id(n)][1].name if rec[id(n)][1] is not None else None, rec[id(n)][2])
+    problems = []
+    for w in nodes:
+        kids = [(id(c), id(w), f.name, i) for c, f, i in w.get_child_nodes_with_field()]
+        if sorted(kids, key=str) != sorted((key(n) for n in nodes if rec[id(n)][0] is w), key=str):
+            problems.append(f"children of {type(w).__name__}")
+        below = [(id(i.node), id(i.parent), i.field.name, i.findex) for i in w.dfs()]
+        if sorted(below, key=str) != sorted((key(n) for n in nodes if any(a is w for a in t.get_ancestors(n))), key=str):
+            problems.append(f"descendants of {type(w).__name__}")
+        if (rec[id(w)][0] is None) != (w is root) or (len(list(t.get_ancestors(w))) == 0) != (w is root):
+            problems.append("root / empty chain")
+        if any(not t.is_in_tree(a) for a in t.get_ancestors(w)):
+            problems.append("chain member outside the tree")
+    if sorted((id(i.node) for i in root.dfs()), key=str) != sorted((id(n) for n in nodes if n is not root), key=str):
+        problems.append("stream of the root")
+    return problems
 
 
 def parse_steps(text: str):
